@@ -28,7 +28,7 @@ ASSUMPTIONS = [
 ]
 BUDGET = {"quick": 75, "thorough": 800}
 ROUNDS = {"thorough": 16}
-FLOORS = {"after_update_comparisons": {"quick": 400, "thorough": 4000}, "reference_comparisons": {"quick": 800, "thorough": 8000}, "metamorphic_checks": {"quick": 500, "thorough": 5000},
+FLOORS = {"after_update_comparisons": {"quick": 400, "thorough": 4000}, "batched_heights_rows": {"quick": 300, "thorough": 3000}, "reference_comparisons": {"quick": 800, "thorough": 8000}, "metamorphic_checks": {"quick": 500, "thorough": 5000},
           "models": 6, "schemes": 4, "permuted": 300, "batched_rows": 100}
 
 MODELS = ["constant", "exponential", "skyride", "skygrid", "linear", "piecewise-exponential"]
@@ -42,10 +42,18 @@ def cases(tier, seed):
     for i in range(n):
         m = w[i % len(w)]
         nt = int(rng.choice([2, 3, 4, 5, 6, 8, 12, 20, 35, 50]))
-        out.append({"model": m, "n": nt, "scheme": str(rng.choice(["iso", "serial", "ties", "clusters"])),
+        out.append({"model": m, "n": nt, "scheme": str(rng.choice(["iso", "serial", "ties", "clusters", "serial", "offset"])),
                     "grid_style": str(rng.choice(["regular", "irregular", "early", "beyond-root", "on-sampling-time"])),
                     "entry": str(rng.choice(["data", "data", "tree"])), "batch": int(rng.choice([0, 0, 0, 2, 3])),
                     "seed": int(rng.integers(2**31))})
+    for i, c in enumerate(out):
+        if i % 17 == 3:
+            c["extreme_theta"] = [1e7, 1e-7][i % 2]
+            if c["model"] in ("skyride", "skygrid", "linear"):
+                c["n"] = int([35, 50][(i // 17) % 2])
+    for c in out:
+        if c["scheme"] == "offset":
+            c["entry"] = "data"  # a tree model measures heights from its most recent tip; the times/events form takes any times
     for i in range(6 if tier == "quick" else 40):
         out.append({"model": "piecewise-exponential", "n": int(rng.integers(3, 12)), "scheme": "serial", "grid_style": "regular",
                     "entry": "data", "batch": 0, "seed": int(rng.integers(2**31))})
@@ -64,6 +72,8 @@ def sampling(rng, n, scheme):
     v = np.asarray(v, dtype=float)
     v[int(rng.integers(n))] = 0.0
     v = v - v.min()
+    if scheme == "offset":
+        v = v + float(rng.uniform(0.3, 3.0))  # no sample at time 0: the most recent tip is older than the origin of time
     return v.tolist()
 
 
@@ -134,7 +144,10 @@ def build(case):
 
     def thetas(k, rows=None):
         shape = (k,) if not rows else (rows, k)
-        return gm.loguniform(rng, 1e-2, 1e3, shape).tolist()
+        v = gm.loguniform(rng, 1e-2, 1e3, shape)
+        if case.get("extreme_theta"):
+            v = v * float(case["extreme_theta"])  # population sizes around 1e7 / 1e-7: products of many of them leave the float range
+        return v.tolist()
 
     if m == "constant":
         d["theta"] = thetas(1, B)
@@ -272,6 +285,35 @@ def run_case(case):
             V.append(tt.viol("C08:piecewise-exponential:raises:%s" % type(e).__name__, "PiecewiseExponentialCoalescentGridModel cannot be evaluated: %s: %s" % (type(e).__name__, str(e)[:160]), **detail))
         return {"violations": V, "counters": C, "fingerprint": None, "sample": None}
 
+    def batched_genealogies(dic):
+        """the distribution object directly with a batch of genealogies (rows with their own coalescent times) and batched theta"""
+        if not (B and m in ("constant", "skyride", "skygrid", "linear") and not V):
+            return
+        s_ = d["sampling"]
+        cs = [d["coalescent"]] + [kg.simulate(rng, s_, float(gm.loguniform(rng, 0.3, 3.0)) * d.get("scale", 1.0)) for _ in range(B - 1)]
+        hs = torch.tensor([list(s_) + list(cb) for cb in cs], dtype=torch.float64)
+        try:
+            vals = tt.as_np(dic["coal"].distribution().log_prob(hs), "C08:not-a-tensor:" + m).reshape(-1)
+        except Exception as e:
+            from ..worker import _blame
+
+            if _blame(e) is None:
+                raise
+            vals = None
+            C["batched_heights_declined"] = 1
+        if vals is not None and vals.shape[0] == B:
+            for r in range(B):
+                dr = dict(d)
+                dr["coalescent"] = cs[r]
+                if m in ("skygrid", "linear") and any(abs(g - t) < 1e-9 for g in d["grid"] for t in cs[r]):
+                    continue
+                demo, left = demography(m, dr, r)
+                ref = float(kg.log_density(s_, cs[r], demo, left))
+                C["reference_comparisons"] += 1
+                C["batched_heights_rows"] = C.get("batched_heights_rows", 0) + 1
+                if not np.isfinite(vals[r]) or abs(vals[r] - ref) > 1e-9 * max(1.0, abs(ref)):
+                    V.append(tt.viol("C08:value:%s:batched-heights" % m, "%s with a batch of %d genealogies: row %d has log density %.15g, Kingman reference %.15g" % (m, B, r, vals[r], ref), row=r, **detail))
+                    break
     # ---- library value through the chosen entry point
     if case["entry"] == "tree" and not (B and m in ("exponential",)):
         spec_tree, ih = tree_entry(case, d, m, rng)
@@ -293,6 +335,11 @@ def run_case(case):
             # a batched shape the model declines (fails with an error, returns no number): accepted, counted
             C["batched_declined"] = 1
             C["declined_models"] = [m]
+            try:
+                _, dic_ = tt.load(spec)
+                batched_genealogies(dic_)
+            except tt.SubjectError:
+                raise
             return {"violations": V, "counters": C, "fingerprint": None, "sample": None}
         raise
     rows = list(range(B)) if B else [None]
@@ -313,6 +360,7 @@ def run_case(case):
             V.append(tt.viol("C08:value:%s:%s" % (m, case["entry"]), "%s (%s entry, n=%d, %s%s): log density %.15g, Kingman reference %.15g" % (
                 m, case["entry"], n, case["scheme"], ", grid " + case["grid_style"] if m in ("skygrid", "linear") else "", x, ref), row=r, **detail))
             break
+    batched_genealogies(dic)
     # ---- the distribution object directly, heights in another order: same value
     if not B:
         s, c = d["sampling"], d["coalescent"]
